@@ -67,7 +67,13 @@ def zero_arg_case(rng, n, i):
 def ordered_case(rng, n):
     """flat n-tuple of ordered clauses over 3 methods: the slot sequence is the written sequence"""
     terms = [nxt(rng.choice([0, 1, 2]), k + 1, k + 1) for k in range(n)]
-    evs = [{"base": ("call", 0, t["mid"], rng.randrange(8))} for t in terms] + [{"base": ("verify", 0)}]
+    args = [rng.randrange(8) for _ in terms]
+    for t, a in zip(terms, args):
+        if rng.random() < 0.5:
+            # the slot's pattern accepts one or two arguments, written as unguarded literal alternatives of matching!; the call uses the first
+            t["pat"]["matcher"] = (1 << a) | (1 << rng.choice([x for x in range(8) if x >= a]))
+            t["pat"]["macro"] = True
+    evs = [{"base": ("call", 0, t["mid"], a)} for t, a in zip(terms, args)] + [{"base": ("verify", 0)}]
     return {"partial": False, "terms": terms, "events": evs, "_layout": list(range(n)), "_kind": f"ordered{n}"}
 
 
